@@ -1,0 +1,22 @@
+//go:build verif
+
+// Contracts for package gtab, checked by /verif/engine (gvc).  This file
+// contains comments only; it is compiled only with the "verif" build tag.
+package gtab
+
+//@ func (info *Info) FindLookups(lang language.Tag, includeFeature map[string]bool) (ll []LookupIndex)   props: C15 C02
+//@   requires info != nil ==> len(info.FeatureList) <= 65535 && len(info.LookupList) <= 65535 && forall k int :: 0 <= k && k < len(info.FeatureList) ==> info.FeatureList[k] != nil
+//@   ensures forall i int :: 0 <= i && i < len(ll) ==> ll[i] < len(info.LookupList)
+//@   modifies nothing
+//@   loop 0
+//@     invariant len(tags) == nseen(info.ScriptList) && fresh(tags) && info != nil && len(info.ScriptList) > 0
+//@     exit_assert len(tags) == len(info.ScriptList)
+//@   loop 1
+//@     invariant includeLookup != nil && fresh(includeLookup)
+//@   loop 2
+//@     invariant includeLookup != nil && fresh(includeLookup) && numFeatures == len(info.FeatureList)
+//@   loop 3
+//@     invariant includeLookup != nil && fresh(includeLookup) && numFeatures == len(info.FeatureList)
+//@   loop 4
+//@     invariant (isnil(ll) || fresh(ll)) && numLookups == len(info.LookupList)
+//@     invariant forall i int :: 0 <= i && i < len(ll) ==> ll[i] < len(info.LookupList)
